@@ -76,10 +76,13 @@ RefAttempts ==
   IN I \o (IF l = r THEN L ELSE IF ReflectedFirst THEN R \o L ELSE L \o R)
 
 Min(S) == CHOOSE m \in S : \A n \in S : m <= n
-Ref == LET att == RefAttempts
-           hits == {i \in 1..Len(att) : Val(att[i].mid) # NI}
-       IN IF hits = {} THEN [res |-> "TypeError", log |-> att]
-          ELSE [res |-> att[Min(hits)].mid, log |-> SubSeq(att, 1, Min(hits))]
+(* TLC re-evaluates a LET definition at every use: values that are used more than once are bound    *)
+(* through a singleton set instead (One({Body(v) : v \in {expr}}) evaluates expr once).              *)
+One(S) == CHOOSE y \in S : TRUE
+Ref == One({ LET hits == {i \in 1..Len(att) : Val(att[i].mid) # NI} IN
+             IF hits = {} THEN [res |-> "TypeError", log |-> att]
+             ELSE One({[res |-> att[k].mid, log |-> SubSeq(att, 1, k)] : k \in {Min(hits)}})
+           : att \in {RefAttempts} })
 
 ---------------------------------------------------------------------------
 (* Implementation-shaped *)
@@ -110,6 +113,10 @@ CySlotOfChain(seq) == IF seq = <<>> THEN None ELSE IF OwnBin(Head(seq)) THEN <<"
 SlotFn(k) == IF k \in Cdef THEN CySlotOfChain(Anc[k])
              ELSE IF Attr(k, "op") = None /\ Attr(k, "rop") = None THEN None ELSE PY
 
+(* a step of a C function: evaluate e once; return its result unless it is NotImplemented, else    *)
+(* continue with K on the log so far                                                                  *)
+OrElse(e, K(_)) == One({ IF s.v # NI THEN s ELSE K(s.log) : s \in {e} })
+
 (* the Cython-generated slot function of cdef class K, called with (left, right) *)
 RECURSIVE CySlot(_, _)
 CySlot(K, log) ==
@@ -122,12 +129,12 @@ CySlot(K, log) ==
       CallLeft(lg)  == IF ol THEN Invoke(K, "op", "LR", lg) ELSE BaseCall(lg)
       CallRight(lg) == IF orr THEN Invoke(K, "rop", "RL", lg) ELSE BaseCall(lg)
       early == maybeSelfIsLeft /\ orr /\ ~ol /\ maybeSelfIsRight0             \* "if (maybe_self_is_right) { res = call_right; ..."
-      s1 == IF early THEN CallRight(log) ELSE Ret(NI, log)
-      s2 == IF s1.v # NI THEN s1 ELSE IF maybeSelfIsLeft THEN CallLeft(s1.log) ELSE s1
       maybeSelfIsRight == IF ol THEN maybeSelfIsRight0                       \* computed late when overloads_left
                           ELSE IF early THEN FALSE                            \* "Don't bother calling it again."
                           ELSE maybeSelfIsRight0
-  IN IF s2.v # NI THEN s2 ELSE IF maybeSelfIsRight THEN CallRight(s2.log) ELSE s2
+  IN OrElse(IF early THEN CallRight(log) ELSE Ret(NI, log),
+       LAMBDA lg1 : OrElse(IF maybeSelfIsLeft THEN CallLeft(lg1) ELSE Ret(NI, lg1),
+         LAMBDA lg2 : IF maybeSelfIsRight THEN CallRight(lg2) ELSE Ret(NI, lg2)))
 
 CallAttr(k, m, so, log) ==
   LET a == Attr(k, m) IN
@@ -141,13 +148,12 @@ PySlot(log) ==
       selfPy   == SlotFn(l) = PY
       overl    == /\ doOther0 /\ IsSub(r, l)
                   /\ Attr(r, "rop") # None /\ Attr(r, "rop") # Attr(l, "rop")     \* method_is_overloaded
-      s1 == IF selfPy /\ overl THEN CallAttr(r, "rop", "RL", log) ELSE Ret(NI, log)
       doOther == IF selfPy /\ overl THEN FALSE ELSE doOther0
-      s2 == IF s1.v # NI THEN s1 ELSE IF selfPy THEN CallAttr(l, "op", "LR", s1.log) ELSE s1
-  IN IF s1.v # NI THEN s1
-     ELSE IF selfPy /\ (s2.v # NI \/ l = r) THEN s2
-     ELSE IF doOther THEN CallAttr(r, "rop", "RL", s2.log)
-     ELSE Ret(NI, s2.log)
+  IN OrElse(IF selfPy /\ overl THEN CallAttr(r, "rop", "RL", log) ELSE Ret(NI, log),
+       LAMBDA lg1 : One({ IF selfPy /\ (s2.v # NI \/ l = r) THEN s2                  \* "if (r != Py_NotImplemented || Py_IS_TYPE(other, Py_TYPE(self))) return r"
+                          ELSE IF doOther THEN CallAttr(r, "rop", "RL", s2.log)
+                          ELSE Ret(NI, s2.log)
+                        : s2 \in {IF selfPy THEN CallAttr(l, "op", "LR", lg1) ELSE Ret(NI, lg1)} }))
 
 CallSlot(f, log) == IF f = PY THEN PySlot(log) ELSE CySlot(f[2], log)
 
@@ -157,18 +163,18 @@ BinaryOp1(log) ==
       slotw0 == IF l # r THEN SlotFn(r) ELSE None
       slotw == IF slotw0 = slotv THEN None ELSE slotw0
       first == slotv # None /\ slotw # None /\ IsSub(r, l)
-      s1 == IF first THEN CallSlot(slotw, log) ELSE Ret(NI, log)
       slotw1 == IF first THEN None ELSE slotw
-      s2 == IF s1.v # NI THEN s1 ELSE IF slotv # None THEN CallSlot(slotv, s1.log) ELSE s1
-  IN IF s2.v # NI THEN s2 ELSE IF slotw1 # None THEN CallSlot(slotw1, s2.log) ELSE s2
+  IN OrElse(IF first THEN CallSlot(slotw, log) ELSE Ret(NI, log),
+       LAMBDA lg1 : OrElse(IF slotv # None THEN CallSlot(slotv, lg1) ELSE Ret(NI, lg1),
+         LAMBDA lg2 : IF slotw1 # None THEN CallSlot(slotw1, lg2) ELSE Ret(NI, lg2)))
 
-(* nb_inplace_<op>: the cdef class's own method, the inherited one, or slot_nb_inplace_<op> *)
+(* binary_iop1: nb_inplace_<op> is the cdef class's own __iop__ or an inherited one *)
 ISlotClass(k) == Lookup(k, "iop")
 Imp ==
-  LET ic == ISlotClass(l)
-      s0 == IF ip /\ ic # "" THEN Invoke(ic, "iop", "LR", <<>>) ELSE Ret(NI, <<>>)
-      s1 == IF s0.v # NI THEN s0 ELSE BinaryOp1(s0.log)
-  IN [res |-> IF s1.v = NI THEN "TypeError" ELSE s1.v, log |-> s1.log]
+  LET ic == ISlotClass(l) IN
+  One({ [res |-> IF s.v = NI THEN "TypeError" ELSE s.v, log |-> s.log]
+      : s \in { OrElse(IF ip /\ ic # "" THEN Invoke(ic, "iop", "LR", <<>>) ELSE Ret(NI, <<>>),
+                       LAMBDA lg : BinaryOp1(lg)) } })
 
 ---------------------------------------------------------------------------
 Undecided(log) == {i \in 1..Len(log) : log[i].mid \notin DOMAIN beh}
@@ -180,6 +186,8 @@ IsCase == NextMethod = ""
 Init == /\ \E p \in Pairs : l = p[1] /\ r = p[2]
         /\ ip \in BOOLEAN
         /\ defs \in [Involved(l, r) -> SUBSET M]
+        \* __iop__ can only matter for `x op= y` and in the ancestry of x: other configurations are not enumerated
+        /\ \A k \in Involved(l, r) : "iop" \in defs[k] => (ip /\ k \in Range(Anc[l]))
         /\ beh = <<>>
         /\ ref = Ref /\ imp = Imp
 
